@@ -160,17 +160,17 @@ def check_recovery(x, p, z, fname, tag):
     T = datamat(np.asarray(x), p, mod); Xc = T[:, 1:]; X1 = T[:, 0]
     sv = np.linalg.svd(Xc, compute_uv=False); kap = float(sv[0] / sv[-1]) if sv[-1] > 0 else np.inf
     s = float(np.vdot(X1, X1).real)
-    if not np.isfinite(kap) or kap > 1e7:
+    if not np.isfinite(kap) or kap > 1e8:
         return [], {'kappa': kap, 'skipped': 'illconditioned'}
     bad = []
     if abs(e) > 1e-11 * kap * s:
         bad.append(('exp_e_zero/' + site, 'noiseless exponentials: e=%.3g, signal energy %.3g' % (e, s)))
     rts = np.roots(np.concatenate(([1], a)))
     d = max(np.min(np.abs(rts - zi)) for zi in z)
-    if d > 1e-11 * kap:
+    if d > 1e-12 * kap:
         bad.append(('exp_recovery/' + site, 'a root of the returned polynomial misses its exponential by %.3g (cond %.3g)' % (d, kap)))
     c = np.poly(z)[1:]
-    if np.max(np.abs(a - c)) > 1e-10 * kap * (1 + np.max(np.abs(c))):
+    if np.max(np.abs(a - c)) > 1e-11 * kap * (1 + np.max(np.abs(c))):
         bad.append(('exp_polynomial/' + site, 'returned coefficients differ from the root polynomial by %.3g' % np.max(np.abs(a - c))))
     return bad, {'kappa': kap}
 
@@ -322,7 +322,7 @@ def run(ctx):
                 ctx.violation(key, what, {'function': fname, 'x': vlib.hexv(x), 'order': p})
 
     # exact recovery of p noiseless exponentials (complex: p frequencies; real: p/2 sinusoids), all amplitudes
-    for it in range(ctx.q(60, 700)):
+    for it in range(ctx.q(100, 800)):
         cplx = bool(rng.integers(0, 3)); p = int(rng.integers(1, 13))
         if not cplx and p % 2:
             p += 1
@@ -330,20 +330,27 @@ def run(ctx):
         if p > min(N // 2, 20):
             continue
         t = np.arange(N)
+        close = bool(rng.integers(0, 3) == 0)     # a pair of close frequencies: moderately ill-conditioned, still well inside the domain
         if cplx:
             f = rng.uniform(-0.5, 0.5, p); amp = rng.uniform(0.5, 2, p) * np.exp(2j * np.pi * rng.uniform(0, 1, p))
+            if close and p >= 2:
+                f[1] = f[0] + 10.0 ** rng.uniform(-3.5, -1.5)
             z = np.exp(2j * np.pi * f); x = sum(amp[i] * z[i] ** t for i in range(p))
         else:
             f = rng.uniform(0.02, 0.48, p // 2); amp = rng.uniform(0.5, 2, p // 2); ph = rng.uniform(0, 2 * np.pi, p // 2)
+            if close and p >= 4:
+                f[1] = min(0.49, f[0] + 10.0 ** rng.uniform(-3, -1.5))
             x = sum(amp[i] * np.cos(2 * np.pi * f[i] * t + ph[i]) for i in range(p // 2))
             z = np.concatenate([np.exp(2j * np.pi * f), np.exp(-2j * np.pi * f)])
         x = x * 10.0 ** int(rng.integers(-5, 8))
         tag = ('complex' if cplx else 'real')
         for fname in ('arcovar', 'modcovar'):
-            ctx.count('recovery/%s/%s' % (fname, tag))
+            ctx.count('recovery/%s/%s%s' % (fname, tag, '/close-pair' if close else ''))
             ctx.case(('recovery', fname, np.asarray(x).tobytes(), p), nontrivial=(p >= 2))
             bad, info = check_recovery(x, p, z, fname, tag)
             if info and info.get('skipped'):
                 ctx.count('recovery/skipped-' + info['skipped'])
+            elif info:
+                ctx.count('recovery/cond-1e%d' % int(np.floor(np.log10(max(info['kappa'], 1.0)))))
             for key, what in bad:
                 ctx.violation(key, what, {'function': fname, 'kind': 'recovery', 'x': vlib.hexv(x), 'order': p, 'z': vlib.hexv(z)})
